@@ -74,6 +74,7 @@ func ZZ_H18c_MergeContexts() {
 	cancel(nil)
 	zzvrt.Quiesce()
 	zzvrt.Assert(zzvrt.Live() == 0, "leak: the context merger's goroutine finishes once the attempt has returned")
+	zzvrt.Assert(zzvrt.PendingCallbacks() == 0, "leak: the context merger detaches from the source contexts once the attempt has returned")
 	cancel1()
 	cancel2()
 	zzvrt.Reach("merge-done")
